@@ -336,8 +336,9 @@ func convertFFIParamsToABIParameters(ctx context.Context, params fftypes.FFIPara
 		c := fftypes.NewFFISchemaCompiler()
 		v := &ParamValidator{}
 		c.RegisterExtension(v.GetExtensionName(), v.GetMetaSchema(), v)
-		// The schema is registered under a URL - escape the name, so any name is a valid one (a '#' is refused outright)
-		resourceName := url.PathEscape(param.Name)
+		// The schema is registered under a URL - escape the name, so any name is a valid one (a '#' is refused outright,
+		// and a ':' would make the part in front of it a URL scheme, or an invalid first path segment)
+		resourceName := strings.ReplaceAll(url.PathEscape(param.Name), ":", "%3A")
 		err := c.AddResource(resourceName, strings.NewReader(param.Schema.String()))
 		if err != nil {
 			return nil, i18n.WrapError(ctx, err, signermsgs.MsgInvalidFFIDetailsSchema, param.Name)
